@@ -35,6 +35,7 @@ fn value_json(v: &AvailableValue) -> String {
         AvailableValue::Address(l) => format!("{{\"t\":\"Addr\",\"l\":\"{}\"}}", l.get().as_str()),
         AvailableValue::RegisterWithScalar(r, k) => format!("{{\"t\":\"Rws\",\"r\":{},\"k\":{k}}}", r.to_num()),
         AvailableValue::OriginalRegisterWithScalar(r, k) => format!("{{\"t\":\"Orig\",\"r\":{},\"k\":{k}}}", r.to_num()),
+        AvailableValue::ValueInCsr(c) => format!("{{\"t\":\"Vic\",\"n\":{}}}", c.value()),
         _ => "{\"t\":\"Other\"}".to_string(),
     }
 }
@@ -52,6 +53,8 @@ fn mem_json(m: &AvailableValueMap<MemoryLocation>) -> String {
         .map(|(l, v)| {
             let loc = match l {
                 MemoryLocation::StackOffset(o) => format!("{{\"t\":\"Stack\",\"o\":{o}}}"),
+                MemoryLocation::CsrRegister(c) => format!("{{\"t\":\"Csr\",\"n\":{}}}", c.value()),
+                MemoryLocation::CsrRegisterValueOffset(c, o) => format!("{{\"t\":\"CsrMem\",\"n\":{},\"o\":{o}}}", c.value()),
                 _ => "{\"t\":\"Other\"}".to_string(),
             };
             format!("[{loc},{}]", value_json(v))
